@@ -5,7 +5,7 @@ import z3
 
 from . import front
 from .ty import (TInt, TReal, TBool, TStr, TNone, TAny, TTuple, TRec, TList, TDict, TSet, TOpt,
-                 TUnion, TObj, TFunc, Ty)
+                 TUnion, TObj, TFunc, Ty, TLin, TLinVar)
 from .vals import *  # noqa
 
 
@@ -95,6 +95,9 @@ class Frame:
         if id(self) in memo:
             return memo[id(self)]
         f = Frame(self.finfo, dict(self.env), None, self.spec)
+        for k, v in self.__dict__.items():
+            if k not in ("finfo", "env", "parent", "spec"):
+                setattr(f, k, v)
         memo[id(self)] = f
         f.parent = self.parent.clone(memo) if self.parent is not None else None
         return f
@@ -211,6 +214,10 @@ class Exec:
             return VInt(self.app(name, z3.IntSort(), binders))
         if isinstance(ty, TReal):
             return VReal(self.app(name, z3.RealSort(), binders))
+        if isinstance(ty, TLin):
+            return VLin(self.app(name, z3.RealSort(), binders))
+        if isinstance(ty, TLinVar):
+            return self.lift(self.app(name, ty.sort(), binders), ty)
         if isinstance(ty, TBool):
             return VBool(self.app(name, z3.BoolSort(), binders))
         if isinstance(ty, TStr):
@@ -223,7 +230,8 @@ class Exec:
             return VRec(ty.cls, [f for f, _ in ty.fields],
                         [self.mk_abstract(t, f"{name}.{f}", binders) for f, t in ty.fields])
         if isinstance(ty, TTuple):
-            return VTuple([self.mk_abstract(t, f"{name}.{i}", binders) for i, t in enumerate(ty.items)])
+            items = [self.mk_abstract(t, f"{name}.{i}", binders) for i, t in enumerate(ty.items)]
+            return VTuple(items)
         if isinstance(ty, (TOpt, TUnion)):
             return VLazy(ty, name, binders)
         if isinstance(ty, TFunc):
@@ -246,7 +254,7 @@ class Exec:
         raise Unsupported(f"cannot make abstract value of type {ty}")
 
     def encodable(self, ty):
-        return isinstance(ty, (TInt, TReal, TBool, TStr, TRec, TAny)) or (
+        return isinstance(ty, (TInt, TReal, TBool, TStr, TRec, TAny, TLin, TLinVar)) or (
             isinstance(ty, TTuple) and all(self.encodable(i) for i in ty.items))
 
     def key_sort(self, ty):
@@ -268,6 +276,12 @@ class Exec:
                 return z3.If(v.t, z3.RealVal(1), z3.RealVal(0))
         if isinstance(ty, TBool) and isinstance(v, VBool):
             return v.t
+        if isinstance(ty, TLin) and isinstance(v, (VLin, VInt, VReal)):
+            return to_real(v.t)
+        if isinstance(ty, TLinVar) and isinstance(v, VLin) and getattr(v, "var", None) is not None:
+            return v.var
+        if isinstance(ty, TReal) and isinstance(v, VLin):
+            return v.t
         if isinstance(ty, TStr) and isinstance(v, VStr):
             return v.t
         if isinstance(ty, TAny) and isinstance(v, VOpaque):
@@ -288,6 +302,12 @@ class Exec:
             return VInt(t)
         if isinstance(ty, TReal):
             return VReal(t)
+        if isinstance(ty, TLin):
+            return VLin(t)
+        if isinstance(ty, TLinVar):
+            r = VLin(self.ctx.ufunc("lp_val", ty.sort(), z3.RealSort())(t))
+            r.var = t
+            return r
         if isinstance(ty, TBool):
             return VBool(t)
         if isinstance(ty, TStr):
@@ -322,7 +342,7 @@ class Exec:
         if isinstance(v, VTuple):
             return TTuple([self.type_of(i, st) for i in v.items])
         if isinstance(v, VLin):
-            return TReal()
+            return TLinVar() if getattr(v, "var", None) is not None else TLin()
         raise Unsupported(f"no static type for {v!r}")
 
     # ------------------------------------------------------------------ deciding conditions
